@@ -195,8 +195,20 @@ class PVLEncoder(object):
             (preq, _, posteq) = s.partition("=")
             new_prefix = prefix + preq.strip() + " = "
 
+            # Lines may only be broken at spaces between elements, never at
+            # a space inside a quoted string (that would change its value),
+            # so those spaces are hidden from textwrap behind a placeholder
+            # that no grammar's character set contains.
+            hidden = "\ue000"
+            quoted = "|".join(f"{q}[^{q}]*{q}" for q in self.grammar.quotes)
+            value = re.sub(
+                quoted,
+                lambda m: m.group().replace(" ", hidden),
+                posteq.strip()
+            )
+
             lines = textwrap.wrap(
-                posteq.strip(),
+                value,
                 width=(self.width - len(self.newline)),
                 replace_whitespace=False,
                 initial_indent=new_prefix,
@@ -204,7 +216,7 @@ class PVLEncoder(object):
                 break_long_words=False,
                 break_on_hyphens=False,
             )
-            return self.newline.join(lines)
+            return self.newline.join(lines).replace(hidden, " ")
         else:
             return prefix + s
 
